@@ -57,7 +57,7 @@ def _nest(rng, level, st):
     if r < 0.72: return 'setcs %s%sclone /vobj' % (inner, SEPS[level])
     if r < 0.78: return 'setcs %s%sload /lobj' % (inner, SEPS[level])
     # applies made by efuns: the hook scripts were installed by the setup commands
-    return rng.choice(('present me', 'move a b', 'move b me', 'say hello', 'cmd x', 'as b cmd x', 'as b cmd x', 'dest c', 'dest a'))
+    return rng.choice(('present me', 'move a b', 'move b me', 'say hello', 'cmd x', 'as b cmd x', 'as b cmd x', 'dest c', 'dest a', 'parse', 'parse'))
 
 
 def gen(rng, tier, i):
@@ -78,7 +78,7 @@ def gen(rng, tier, i):
     cmd('name u0;clone /vobj a;clone /vobj b;clone /vobj c;move a me;move b me;move c a;as b living')
     # hook scripts (each is itself a small nest, stored one level down)
     for ob in ('a', 'b', 'c', 'me'):
-        for hk in (('id', 'init', 'mod', 'catch_tell') + (('x',) if ob == 'b' else ()) if ob != 'me' else ('x',)):
+        for hk in (('id', 'init', 'mod', 'catch_tell', 'pid') + (('x',) if ob == 'b' else ()) if ob != 'me' else ('x',)):
             if rng.random() < 0.5:
                 cmd('sc %s %s %s' % (ob, hk, ','.join(_nest(rng, 1, st) for _ in range(rng.randint(1, 2)))))
     if kind == 'cmd':
